@@ -10,3 +10,12 @@ CHECKS["C20"] = _c(
     "Trusted: the DP reference matcher and serde_json's Value equality. 'single character' is read as one Unicode scalar value. One(\"*\") is not generated (same JSON text as Wildcard).",
     "DESIGN.md 3/C20",
 )
+
+CHECKS["C14"] = _c(
+    "exploration",
+    "runtime monitoring: differential oracle (reference calendar arithmetic cross-checked with aws-smithy-types, RFC 9110 range grammar/interval, RFC 3986 encoder) over generated executions of the real parsers and formatters",
+    "harness (direct API driver)",
+    "Calls the real Timestamp / Range / CopySource / mime code on instants over years 1..9999 x UTC offsets x 3 formats, on every range and object length up to a bound plus the 2^63 / 2^64 boundaries, on fixed and one-edit non-member range strings, and on copy sources whose keys contain every special character class alone and mixed; each result is compared with a reference. Held on the executions observed; the small-range space is enumerated completely.",
+    "Trusted: the harness's calendar arithmetic (self-tested at start-up and cross-checked per case against aws-smithy-types; disagreement = inconclusive), its RFC 9110 / RFC 3986 references. Precision: ms for date-time and epoch-seconds, s for http-date. Range strings with spaces / upper-case unit get no verdict.",
+    "DESIGN.md 3/C14",
+)
